@@ -1356,3 +1356,91 @@ def awaitable_kinds(check: Check, repo: Repo, rule: str = "AWAITABLE-KINDS") -> 
     }
     for kind, ok in kinds.items():
         check.ob(rule, fn, f"is_awaitable accepts: {kind}", ok, "tested in the returned disjunction" if ok else "no disjunct of the returned expression accepts this kind")
+
+
+# -- memo stored on an object: everything else the value depends on is part of the hit test -----------
+
+
+def _param_chains(expr: ast.AST, fn: ast.AST, params: set[str], org: Origins, at: ast.AST, depth: int = 5,
+                  _seen: frozenset = frozenset()) -> set[str]:
+    """Attribute chains rooted at parameters that `expr` (evaluated at `at`) depends on; locals are
+    expanded through the definitions that reach `at`."""
+    out: set[str] = set()
+    if depth < 0:
+        return out
+
+    def chain_top(n: ast.Name) -> ast.AST:
+        top: ast.AST = n
+        p = parent(top)
+        while isinstance(p, ast.Attribute) and p.value is top:
+            top = p
+            p = parent(top)
+        return top
+
+    for n in ast.walk(expr):
+        if not isinstance(n, ast.Name) or not isinstance(n.ctx, ast.Load):
+            continue
+        top = chain_top(n) if parent(n) is not None else n
+        suffix = unparse(top)[len(n.id):]
+        if n.id in params:
+            out.add(n.id + suffix)
+            continue
+        for d in org.reaching(n.id, n if parent(n) is not None else at):
+            if d.value is None or d.kind not in ("assign", "walrus") or (n.id, id(d.node)) in _seen:
+                continue
+            pure = d.value
+            while isinstance(pure, ast.Attribute):
+                pure = pure.value
+            is_chain = isinstance(pure, ast.Name)
+            for c in _param_chains(d.value, fn, params, org, d.node if d.node is not None else at, depth - 1, _seen | {(n.id, id(d.node))}):
+                # `x = p.a` makes `x.b` the chain p.a.b; `x = f(p)` only makes it depend on p
+                out.add(c + suffix if is_chain else c)
+    return out
+
+
+def attr_memo(check: Check, repo: Repo, mods: list[Module], rule: str = "ATTR-MEMO") -> None:
+    check.rule(
+        rule,
+        "a value memoised in an attribute of an object (read `m = X.attr`, test, compute, store `X.attr = v` in "
+        "one function): every input of the computation that is not itself reached through X is part of the "
+        "test that decides between hit and recompute; a memo on a shared object that ignores a second input "
+        "(the type a default is coerced for) returns the value computed for another type / another schema",
+    )
+    n = 0
+    for mod in mods:
+        for fn in mod.functions():
+            params = {a.arg for a in [*fn.args.posonlyargs, *fn.args.args, *fn.args.kwonlyargs]}
+            for st in walk_body(fn):
+                if not (isinstance(st, ast.Assign) and len(st.targets) == 1 and isinstance(st.targets[0], ast.Attribute)
+                        and isinstance(st.targets[0].value, ast.Name) and st.targets[0].value.id != "self"):
+                    continue
+                holder, attr = st.targets[0].value.id, st.targets[0].attr
+                guard = next((a for a in ancestors(st) if isinstance(a, ast.If)), None)
+                if guard is None:
+                    continue
+                # the same attribute is read before the test and the test looks at what was read
+                reads = [
+                    s for s in walk_body(fn)
+                    if isinstance(s, ast.Assign) and isinstance(s.value, ast.Attribute) and s.value.attr == attr
+                    and unparse(s.value.value) == holder and s.lineno < guard.lineno and isinstance(s.targets[0], ast.Name)
+                ]
+                if not reads:
+                    continue
+                read_name = reads[0].targets[0].id
+                if read_name not in {x.id for x in ast.walk(guard.test) if isinstance(x, ast.Name)}:
+                    continue
+                n += 1
+                org = Origins(fn)
+                holder_chains = _param_chains(ast.Name(id=holder, ctx=ast.Load()), fn, params, org, st) or {holder}
+                inputs = _param_chains(st.value, fn, params, org, st)
+                covered = _param_chains(guard.test, fn, params, org, guard.test)
+                foreign = {
+                    c for c in inputs
+                    if not any(c == h or c.startswith(h + ".") for h in holder_chains)
+                }
+                missing = {c for c in foreign if not any(c == k or k.startswith(c + ".") or c.startswith(k + ".") for k in covered - holder_chains)}
+                check.ob(rule, st, f"{qualname_of(st)}: {holder}.{attr} memoises a value", not missing,
+                         f"inputs outside {holder}: {sorted(foreign) or 'none'} - all in the hit test" if not missing else
+                         f"the stored value also depends on {sorted(missing)}, which the hit test `{unparse(guard.test)}` ignores: "
+                         f"the memo on `{holder}` answers for a different {sorted(missing)[0]}")
+    check.note(attr_memos=n)
